@@ -1395,10 +1395,15 @@ func UtxoValidateInsufficientCollateral(
 	minCollateral := new(
 		big.Int,
 	).Mul(fee, new(big.Int).SetUint64(uint64(tmpPparams.CollateralPercentage)))
-	minCollateral.Div(minCollateral, big.NewInt(100))
-	if totalCollateral.Cmp(minCollateral) >= 0 {
+	// The ledger requires balance * 100 >= fee * collateralPercentage; compare
+	// the exact products so that rounding never favours the transaction
+	scaledCollateral := new(big.Int).Mul(totalCollateral, big.NewInt(100))
+	if scaledCollateral.Cmp(minCollateral) >= 0 {
 		return nil
 	}
+	// Round the reported requirement up to the smallest sufficient balance
+	minCollateral.Add(minCollateral, big.NewInt(99))
+	minCollateral.Div(minCollateral, big.NewInt(100))
 	// Convert to uint64 for error struct (best effort)
 	var providedU, requiredU uint64
 	if totalCollateral.IsUint64() {
